@@ -549,6 +549,63 @@ fn check_rel_history(c: &RelCase, rec: &mut Rec) -> Verdict {
     }
 }
 
+/// `def_of_dict` / `Reflection::entity_type` of one record: the answer may be any of the record's entity types
+/// when it has several unrelated ones (the statement does not say which), but it must be the *same* answer on a
+/// cold namespace, on a warm one, on repetition and from every thread.
+fn entity_type_stability(ctx: &mut Ctx) {
+    let subjects: Vec<Vec<&str>> = vec![
+        vec!["site", "equip"], vec!["ahu", "point"], vec!["site", "space", "equip", "point"], vec!["equip", "ahu", "vav"], vec!["point", "sensor", "temp", "air"],
+        vec!["site"], vec!["device", "equip", "meter", "elec"], vec!["space", "room", "floor"], vec!["weatherStation", "site"], vec!["chiller", "boiler", "equip"], vec!["dis"], vec![],
+    ];
+    let name_of = |d: &libhaystack::val::Dict| d.get("def").map(|v| v.to_string()).unwrap_or_default();
+    for tags in &subjects {
+        ctx.rec.evals += 1;
+        let mut r = RDict::new();
+        r.insert("id".into(), RVal::Ref("x".into(), None));
+        for t in tags {
+            r.insert(t.to_string(), RVal::Marker);
+        }
+        // (`def_of_dict` ties the subject's lifetime to the namespace's: the twelve subjects are leaked)
+        let subject: &'static libhaystack::val::Dict = Box::leak(Box::new(build_dict(&r)));
+        let mut seen: BTreeSet<String> = BTreeSet::new();
+        let outcome = guarded(|| {
+            let mut seen: BTreeSet<String> = BTreeSet::new();
+            for _round in 0..3 {
+                let ns = OwnedNs::make(real_grid());
+                seen.insert(name_of(&ns.get().def_of_dict(subject))); // cold
+                for _ in 0..8 {
+                    seen.insert(name_of(&ns.get().def_of_dict(subject)));
+                    seen.insert(name_of(&ns.get().reflect(subject).entity_type));
+                }
+                let from_threads: Vec<String> = std::thread::scope(|s| {
+                    let hs: Vec<_> = (0..4).map(|_| s.spawn(|| name_of(&ns.get().def_of_dict(subject)))).collect();
+                    hs.into_iter().map(|h| h.join().unwrap_or_default()).collect()
+                });
+                seen.extend(from_threads);
+            }
+            seen
+        });
+        match outcome {
+            Ok(s) => seen = s,
+            Err(p) => {
+                ctx.report("entity-type", Verdict::fail(format!("C14:history:entity-type:{}", panic_sig(&p)), p.msg), json!({"tags": tags}));
+                continue;
+            }
+        }
+        if tags.len() >= 2 {
+            ctx.rec.nontrivial(key_of(&format!("entity-type:{tags:?}")));
+        }
+        ctx.rec.class("entity-type:repeated-cold-warm-threads");
+        if seen.len() > 1 {
+            ctx.report(
+                "entity-type",
+                Verdict::fail("C14:history:entity-type-unstable", format!("def_of_dict of a record with the markers {tags:?} answered {seen:?} over repetitions on cold / warm namespaces and from four threads")),
+                json!({"tags": tags}),
+            );
+        }
+    }
+}
+
 pub fn probe_schedule(args: &[String]) -> i32 {
     let Some(path) = args.first() else { return 2 };
     let Ok(text) = std::fs::read_to_string(path) else { return 2 };
@@ -571,11 +628,12 @@ pub fn probe_schedule(args: &[String]) -> i32 {
 }
 
 pub fn run(ctx: &mut Ctx) {
-    ctx.rule("histories (deterministic): generated query sequences on a freshly built namespace in four orders (each query twice in a row, reversed, rotated, forward-then-reverse); every answer must equal the stateless subtype-graph model, and association/relationship answers must equal those of a cold namespace (real defs, and generated worlds of relationship defs - transitive or not, `reciprocalOf` declared on one side, both or none - with tag defs, records pointing at each other and 3-24 has_relationship queries in a generated order); schedules: 2-16 threads started on a barrier, each issuing a generated query list against one cold namespace (generated taxonomy or the real defs) while a generated per-thread plan (nothing / yield / sleep 50us / spin) is applied at the caches' critical points through the sched_point hook; every answer of every thread must equal the model, no panic, completion within 30 s (a stuck schedule is re-run in a child process before it is called a deadlock); stress: 16 threads x 200 queries on cold real-defs namespaces; non-trivial: a schedule in which the hook observed two threads inside the same cache-miss window / a history of >= 3 queries; distinct by case");
+    ctx.rule("histories (deterministic): generated query sequences on a freshly built namespace in four orders (each query twice in a row, reversed, rotated, forward-then-reverse); every answer must equal the stateless subtype-graph model, and association/relationship answers must equal those of a cold namespace (real defs, and generated worlds of relationship defs - transitive or not, `reciprocalOf` declared on one side, both or none - with tag defs, records pointing at each other and 3-24 has_relationship queries in a generated order; def_of_dict / entity_type of records with several unrelated entity markers repeated on cold and warm namespaces and from four threads must always name the same def); schedules: 2-16 threads started on a barrier, each issuing a generated query list against one cold namespace (generated taxonomy or the real defs) while a generated per-thread plan (nothing / yield / sleep 50us / spin) is applied at the caches' critical points through the sched_point hook; every answer of every thread must equal the model, no panic, completion within 30 s (a stuck schedule is re-run in a child process before it is called a deadlock); stress: 16 threads x 200 queries on cold real-defs namespaces; non-trivial: a schedule in which the hook observed two threads inside the same cache-miss window / a history of >= 3 queries; distinct by case");
     ctx.assume("schedule exploration is biased sampling of OS interleavings, not enumeration; the history half is deterministic");
     let max_defs = ctx.tier.pick(16, 30) as usize;
     ctx.run_sub::<NsCase>("history", ctx.tier.pick(3_200, 64_000), &move || ns_case(max_defs, 30), &check_history);
     relationship_history(ctx);
+    entity_type_stability(ctx);
     ctx.run_sub::<RelCase>("relationship-history", ctx.tier.pick(8_000, 160_000), &rel_case, &check_rel_history);
     ctx.run_sub::<SchedCase>("schedule", ctx.tier.pick(1_600, 48_000), &move || sched_case(max_defs), &check_schedule);
     ctx.extra.insert("sched_points_hit".into(), json!(POINTS.load(Ordering::Relaxed)));
@@ -612,6 +670,16 @@ pub fn replay(kind: &str, case: &J, rec: &mut Rec) -> Verdict {
     match kind {
         "history" => NsCase::from_json(case).map(|c| check_history(&c, rec)).unwrap_or_else(|e| Verdict::fail("infra:bad-replay", e)),
         "relationship-history" if case.get("rels").is_some() => RelCase::from_json(case).map(|c| check_rel_history(&c, rec)).unwrap_or_else(|e| Verdict::fail("infra:bad-replay", e)),
+        "entity-type" => {
+            // re-run the whole (small, deterministic) stability check
+            let mut c = Ctx::new("C14", crate::runner::Tier::Quick, 1);
+            entity_type_stability(&mut c);
+            if !c.violations.is_empty() {
+                Verdict::fail("C14:history:entity-type-unstable", "def_of_dict is not stable (see the check's output)")
+            } else {
+                Verdict::Pass
+            }
+        }
         "schedule" => match SchedCase::from_json(case) {
             Ok(c) => {
                 // a replay re-runs the same plan several times: the OS may interleave differently each time
